@@ -317,6 +317,11 @@ class _Generator(Generator):
         return encode_lines, decode_lines
 
     def format_octet_string_inner(self, type_, checker):
+        if checker.maximum > 65535:
+            raise self.error(
+                'OCTET STRING with a maximum length above 65535 is not '
+                'supported.')
+
         location = self.location_inner('', '.')
         if checker.maximum < 256:
             length_type = 'uint8_t'
@@ -558,6 +563,11 @@ class _Generator(Generator):
         )
 
     def format_sequence_of_inner(self, type_, checker):
+        if checker.maximum > 65535:
+            raise self.error(
+                'SEQUENCE OF with a maximum length above 65535 is not '
+                'supported.')
+
         type_name = self.format_type_name(0, checker.maximum)
         unique_i = self.add_unique_variable('{} {{}};'.format(type_name),
                                             'i')
